@@ -76,11 +76,17 @@ Theorem safe_run buflen : forall fuel c p tr, safe_prog buflen p -> rx_outcome b
 Proof.
   induction fuel as [|f IH]; intros c p tr Hs; [constructor|]. cbn [run].
   destruct Hs as [len data Hl Hd|e|a k h Hk Hh]; cbn [snd]; try (constructor; assumption).
-  destruct a as [segs|call|ns].
+  destruct a as [segs|call|ns|tag v|tag].
   - destruct (tick c) as [flt c1]. destruct flt; [apply IH; apply Hh|].
     destruct (run_segs c1 segs [] 0 [] []) as [[[c2 written] tsegs] got] eqn:E. apply IH. apply Hk.
     intros segs' Heq. injection Heq as <-. apply run_segs_got_length in E. cbn [length] in E. lia.
-  - destruct (tick c) as [flt c1]. destruct flt; [apply IH; apply Hh|]. apply IH. apply Hk. intros segs Heq. discriminate.
+  - assert (G : forall c0 tr0, rx_outcome buflen (snd (let '(flt, c1) := tick c0 in
+                 if flt then run f c1 (h EBusy) (TIvFault call :: tr0) else run f c1 (k []) (TIv call :: tr0)))).
+    { intros c0 tr0. destruct (tick c0) as [flt c1]. destruct flt; [apply IH; apply Hh|]. apply IH. apply Hk. intros segs Heq. discriminate. }
+    destruct call; try apply G.
+    destruct (_ || _); [cbn [snd]; constructor|]. apply G.
+  - apply IH. apply Hk. intros segs Heq. discriminate.
+  - apply IH. apply Hk. intros segs Heq. discriminate.
   - apply IH. apply Hk. intros segs Heq. discriminate.
 Qed.
 
